@@ -384,6 +384,11 @@ def correspondence(ctx):
     intersect_stream(ctx, ctx.budget(300, 5000))
     special_stream(ctx, ctx.budget(100, 1500))
     tangent_dual_stream(ctx, ctx.budget(100, 1500))
+    # the same operations on collections of quadrics / lines / points against the single objects (all shape patterns)
+    import colllib
+    colllib.run(ctx, ctx.budget(250, 3000), prefix="C14",
+                only={"quadric.tangent", "conic.tangent", "quadric.polar", "conic.is_tangent", "conic.intersect", "quadric3.degenerate-intersect",
+                      "conic.dual", "quadric.dual"})
 
 
 def replay(ctx, rec):
